@@ -52,13 +52,46 @@ def signal_bits(ctx):
 
 
 def _bit_test_const(g, e):
-    """mask m of a `(x & m) != 0` test in any form (`!((x & m) == 0)`, `0 != x & m`, ...); None otherwise"""
+    """mask m when the boolean function with graph g (return expression e) computes `(x & m) != 0`, in any form: as a
+    value (`(x & m) != 0`, `!((x & m) == 0)`, `0 != x & m`) or as control flow (`match x & m { 0 => false, _ => true }`,
+    `if x & m == 0 { false } else { true }`); None otherwise"""
     nr_ = norm_rel(g, e)
-    if not nr_ or nr_[0] != 'Eq' or nr_[3]:
+    if nr_ and nr_[0] == 'Eq' and not nr_[3]:
+        for l, z in ((nr_[1], nr_[2]), (nr_[2], nr_[1])):
+            if _const_of(g, z) == '0' and l[0] == 'bin' and l[1] == 'BitAnd':
+                return _const_of(g, l[3]) or _const_of(g, l[2])
         return None
-    for l, z in ((nr_[1], nr_[2]), (nr_[2], nr_[1])):
-        if _const_of(g, z) == '0' and l[0] == 'bin' and l[1] == 'BitAnd':
-            return _const_of(g, l[3]) or _const_of(g, l[2])
+    # control-flow form: one zero-test of `x & m`; constants returned on its two sides
+    x = g.x
+    masks = []
+
+    def _band(e_):
+        if e_[0] == 'bin' and e_[1] == 'BitAnd':
+            m_ = _const_of(g, e_[3]) or _const_of(g, e_[2])
+            if m_ is not None:
+                masks.append(m_)
+                return True
+        return False
+    z, nz, hit = x.zero_tests(_band)
+    if len({h[0] for h in hit}) != 1 or len(set(masks)) != 1:
+        return None
+    # every return on the zero side yields false, on the non-zero side true
+    vals = {0: set(), 1: set()}
+    for d_ in g.defs.get((g.root_inst, 0)) or ():
+        st = g._def_site(d_)
+        if d_[0] != 'rv' or st is None:
+            return None
+        if not any(m_ in g.live() for m_ in g.members(st[0])):
+            continue
+        v = g.strip(g._ev_def(d_))
+        if v[0] != 'c':
+            return None
+        on_z, on_nz = x.dom(z, st[0]), x.dom(nz, st[0])
+        if on_z == on_nz:
+            return None
+        vals[0 if on_z else 1].add(str(v[1]))
+    if vals[0] == {'0'} and vals[1] == {'1'}:
+        return masks[0]
     return None
 
 
@@ -146,7 +179,7 @@ def _p12f(ctx):
             'MemoryManager::free clears the epoch signal without a completed cycle', sub='cycle-end')
     # every call of free() attempts to complete the cycle in flight (not only while the backlog is small)
     attempts = [n for n in x.ext_calls(r'Mutex(::<.*>)?::try_lock$')
-                if any(p_.endswith('MemoryManager.mem_manager') for p_ in g.locpaths(g.call_args(n)[0])) and g.nodes[n].inst == g.root_inst]
+                if any(p_.endswith('MemoryManager.mem_manager') for p_ in g.locpaths(g.call_args(n)[0])) and not x.within(n, r'memory::MemoryManager::start_free$')]
     okA = bool(attempts) and bool(tf) and not (x.reachable_entry(blocked=set(attempts)) & set(g.exits)) and \
         not (x.reachable_entry(blocked=set(tf) | {e_ for n in attempts for e_ in ()}) & set())
     # the epoch the tokens are compared with is read under the manager lock (after any bump this call could make)
@@ -211,7 +244,7 @@ def _p12h(ctx):
             continue
         g = ctx.graph(name, 'MPMC')
         x = g.x
-        frees = [c for c in x.inlined(r'memory::MemoryManager::free$') if g.nodes[c].inst == g.root_inst]
+        frees = [c for c in x.inlined(r'memory::MemoryManager::free$') if x.home(c) == g.root_inst]
         locks = [l for l in x.ext_calls(r'Mutex(::<.*>)?::lock$') if any(p_.endswith('MemoryManager.mem_manager') for p_ in g.locpaths(g.call_args(l)[0]))]
         for c in frees:
             n += 1
@@ -259,12 +292,10 @@ def _p12i(ctx):
     ctx.add('P12i', 'T-MUST', fn, ok, 'a completed reclamation cycle records the epoch it completed' if ok else
             'try_freeing does not record the completed epoch after deleting the batch: the next cycle can never start and retired memory grows without bound', sub='completed-epoch')
     # the boolean result: true only after the batch was drained
-    trues = []
-    for n in g.nodes:
-        if n.id in g.live() and n.kind == 'block' and n.inst == g.root_inst:
-            for s_ in n.stmts:
-                if s_['k'] == 'assign' and s_['pl']['l'] == 0 and not s_['pl']['p'] and s_['rv']['k'] == 'use' and s_['rv']['op']['k'] == 'const' and str(s_['rv']['op'].get('v')) == '1':
-                    trues.append(n.id)
+    # (origins of the returned constant, through helper functions if the result is computed there)
+    g._fwd_calls = set()
+    origins, _all = g._const_origins(g.root_inst, 0, set())
+    trues = sorted({x.rep(n_) for (n_, v_) in origins if str(v_) == '1' and any(m_ in g.live() for m_ in g.members(n_))})
     ok2 = bool(trues) and all(x.dom(set(drains), t) for t in trues)
     ctx.add('P12i', 'T-DOM', fn, ok2, 'try_freeing reports success only after deleting the batch', sub='result')
 
@@ -370,7 +401,7 @@ def _p9g(ctx):
             if re.search(r'multiqueue::(Fut)?Inner(Uni)?Recv<', ty):
                 decs.add(n_)
         for nd in g.nodes:
-            if nd.id in g.live() and nd.kind == 'block' and nd.term['k'] == 'drop' and nd.inst == g.root_inst and \
+            if nd.id in g.live() and nd.kind == 'block' and nd.term['k'] == 'drop' and g.x.home(nd.id) == g.root_inst and \
                     re.search(r'multiqueue::(Fut)?Inner(Uni)?Recv<', nd.term['dty']['s']):
                 decs.add(x.rep(nd.id))
         tests = {a.nid for a in x.atoms_on('ReaderMeta.num_consumers') if a.op == 'load'}
@@ -384,6 +415,7 @@ def _p9g(ctx):
 def _p11g(ctx):
     F = ctx.F
     n = 0
+    subjects = set()
     for name, f in F.fns.items():
         if f.get('from_expansion'):
             continue
@@ -392,15 +424,16 @@ def _p11g(ctx):
             for s in b_['stmts']:
                 if s['k'] == 'assign' and s['rv']['k'] == 'agg' and s['rv']['ak'] == 'adt' and re.search(r'multiqueue::FutInner(Send|Recv|UniRecv)$', s['rv']['adt']):
                     hit = True
-        if not hit:
-            continue
+        if hit:
+            subjects |= ctx.subjects_for(name)
+    for name in sorted(subjects):
         g = ctx.graph(name, 'MPMC')
         x = g.x
         installed = set()
         for c in x.inlined(r'multiqueue::MultiQueue::<.*>::new_internal$'):
             installed |= x.calls_in(g.ev_local(g.nodes[c].call['inlined'], 2))
         for (nid, si, rv) in x.aggs(r'multiqueue::FutInner(Send|Recv|UniRecv)::'):
-            if g.nodes[nid].inst != g.root_inst:
+            if x.home(nid) != g.root_inst:
                 continue
             n += 1
             e = x.agg_expr(nid, si)
@@ -425,7 +458,7 @@ def _p10g(ctx):
     g = ctx.graph(fn)
     x = g.x
     scans = {a.nid for a in x.atoms_on('ReaderPos.pos_data') if a.op == 'load'}
-    somes = [(nid, si) for (nid, si, rv) in x.aggs(r'option::Option::Some$') if g.nodes[nid].inst == g.root_inst]
+    somes = [(nid, si) for (nid, si, rv) in x.aggs(r'option::Option::Some$') if x.home(nid) == g.root_inst]
     ctx.floor('P10g', len(somes), 1, 'Some(result) of the scan')
     ok = False
     why = 'no max-fold found'
@@ -594,11 +627,12 @@ def _p15m(ctx):
         ok = b is not None and ((_fld_of(g, b[0], 'loaded_vals') and _fld_of(g, b[1], 'Transaction.mask')) or (_fld_of(g, b[1], 'loaded_vals') and _fld_of(g, b[0], 'Transaction.mask'))) \
             and _fld_of(g, r[4][1], 'loaded_vals') and _binop(g, r[4][1], {'BitAnd', 'Add', 'Sub'}) is None
     rule(fn, ok, 'slot index = count & mask; tag = the unmodified count', 'Transaction::get does not return (count & mask, count)', 'get')
-    fn = ctx.fn1(r'^countedindex::CountedIndex::get_previous$')
-    g = ctx.graph(fn)
-    b = _binop(g, g.ev_local(g.root_inst, 0), {'Sub'})
-    ok = b is not None and _is(g, b[0], 'param', 1) and _is(g, b[1], 'param', 2)
-    rule(fn, ok, 'get_previous = start - by', 'get_previous is not start - by', 'get_previous')
+    # (the subtraction itself is checked where it is used: "refreshed tail" below; the helper may have been inlined)
+    for fn in F.find_fns(r'^countedindex::CountedIndex::get_previous$'):
+        g = ctx.graph(fn)
+        b = _binop(g, g.ev_local(g.root_inst, 0), {'Sub'})
+        ok = b is not None and _is(g, b[0], 'param', 1) and _is(g, b[1], 'param', 2)
+        rule(fn, ok, 'get_previous = start - by', 'get_previous is not start - by', 'get_previous')
     fn = ctx.fn1(r'^countedindex::past$')
     g = ctx.graph(fn)
     r = g.strip(g.ev_local(g.root_inst, 0))
